@@ -8,6 +8,7 @@ package storage
 // order and size are compared.
 
 import (
+	"bytes"
 	"encoding/json"
 	"fmt"
 	"testing"
@@ -416,5 +417,23 @@ func TestVerifC15(t *testing.T) {
 			return
 		}
 	}
-	vlib.DriveWith(t, vlib.Prop[c15Case]{ID: "C15", Gen: c15Gen, Run: c15Run}, cfg, st)
+	storeReplay := false
+	if cfg.Replay != "" {
+		if raw, err := vlib.LoadReplay(cfg.Replay); err == nil && bytes.Contains(raw, []byte(`"store_ops"`)) {
+			storeReplay = true
+		}
+	}
+	if !storeReplay {
+		vlib.DriveWith(t, vlib.Prop[c15Case]{ID: "C15", Gen: c15Gen, Run: c15Run}, cfg, st)
+	}
+	if st.Failed() || (cfg.Replay != "" && !storeReplay) {
+		return
+	}
+	// the cache as the file store uses it
+	scfg := cfg
+	scfg.Checks = cfg.Checks / 25
+	if scfg.Checks < 20 {
+		scfg.Checks = 20
+	}
+	vlib.DriveWith(t, vlib.Prop[c15StoreCase]{ID: "C15", Gen: c15StoreGen, Run: c15StoreRun}, scfg, st)
 }
